@@ -4,7 +4,7 @@ CONSTANTS
   Scans = 2
   SaveMask = TRUE
   MaxFaults = 2
-  OneShot = FALSE
+  OneShot = TRUE
   CountInsideIf = FALSE
 INVARIANTS NeverKilled MaskRestored HandlerCoversBody CountExact InstalledIffUsed NonNegative
 PROPERTY AllDone
